@@ -442,6 +442,9 @@ def op_to_coq(op):
         return f"OGate1 {natlit(op['i'])} {blit(op['unitary'])}"
     if k == "measure":
         return f"OMeasure {natlit(op['site'])} {blit(op['remove'])}"
+    if k == "circ_dropped":
+        w = op["where"]
+        return f"ODroppedCopy false {natlit(min(w))} {natlit(max(w))}"
     if k == "dropped":
         if op["api"] == "measure_outcome_copy":
             return f"ODroppedCopy true {natlit(op['site'])} {natlit(op['site'])}"
@@ -557,7 +560,7 @@ def flush(ctx):
         return
     by_id = {cid: (kind, D) for cid, _, kind, D in todo}
     shard = max(10, -(-len(todo) // 8)) if ctx.quick else 40
-    failed, errors = ctx.coq_cases("corr", HEADER, [(cid, case) for cid, case, _, _ in todo], shard=shard)
+    failed, errors = ctx.coq_cases("corr", WORLD_HEADER, [(cid, case) for cid, case, _, _ in todo], shard=shard)
     for path, err in errors:
         ctx.broken_obligation("correspondence:" + path.split("/")[-1], err)
     shown = 0
@@ -567,7 +570,8 @@ def flush(ctx):
             ctx.broken_obligation(f"correspondence:{kind}_model_vs_implementation", {"case": cid})
         elif shown < 4:
             shown += 1
-            ctx.broken_obligation(f"correspondence:model_vs_implementation({kind})", first_divergence(ctx, D))
+            ctx.broken_obligation(f"correspondence:model_vs_implementation({kind})",
+                                  world_divergence(ctx, D) if isinstance(D, World) else first_divergence(ctx, D))
 
 
 class Driver:
@@ -595,9 +599,14 @@ class Driver:
         self.record_void = False  # a rescale outside the recorded range: the record is the caller's to renew
         self.circ = None  # set by run_circuit_history: the state lives in a CircuitMPS, the record in its gate_opts
         self.calc_seen = None
+        self.keyprefix = "CircuitMPS(psi0):"  # violation-key prefix of the circuit layer
+        self.world = None  # set by World: this driver is one holder of a family of cooperating circuits
+        self.truncating = False  # the circuit truncates (max_bond): no dense reference for its gates
 
     # -- replay payload ------------------------------------------------------
     def payload(self, extra=None):
+        if self.world is not None:
+            return self.world.payload(extra)
         d = {"spec": self.spec, "ops": self.ops_done}
         if self.circ is not None:
             d["circuit"] = True
@@ -608,7 +617,7 @@ class Driver:
     def key_of(self, op):
         k = op["kind"]
         if op.get("circuit"):
-            return "CircuitMPS(psi0):" + op["circuit"][0]
+            return self.keyprefix + op["circuit"][0]
         if k == "swap":
             adj = abs(op["i"] - op["j"]) == 1
             return f"swap_sites_with_compress:{'adjacent' if adj else 'distant'}:absorb={op['absorb'] or 'default'}"
@@ -729,7 +738,7 @@ class Driver:
         if self.circ is not None:
             self.circuit_consumers(rec)
 
-    def circuit_consumers(self, rec):
+    def circuit_consumers(self, rec, role=""):
         """record consumers of the circuit layer: the norm based fidelity / error estimate"""
         psid = dense_of(self.circ._psi)
         n2 = float(np.vdot(psid, psid).real)
@@ -737,7 +746,7 @@ class Driver:
         isrange = isinstance(rec, tuple) and rec[0] != rec[1]
         self.ctx.bump("circuit_psi0_fidelity_estimate" + (":range_record" if isrange else ""))
         if abs(fe - n2) > TOL_VAL * max(1.0, n2) or abs(ee - (1 - n2)) > TOL_VAL * max(1.0, n2):
-            self.ctx.violation("CircuitMPS(psi0):fidelity_estimate", f"fidelity_estimate {fe} / error_estimate {ee} with record {rec}; dense <psi|psi> = {n2}",
+            self.ctx.violation(self.keyprefix + role + "fidelity_estimate", f"fidelity_estimate {fe} / error_estimate {ee} with record {rec}; dense <psi|psi> = {n2}",
                                self.payload())
             raise Stop()
 
@@ -803,12 +812,14 @@ class Driver:
             elif api == "circuit_local_expectation":
                 d = int(np.prod([dims[x] for x in w]))
                 G = rand_general(g, d, True)
-                val = complex(self.circ.local_expectation(G, wa))
+                # `w` are the physical sites; the call names the logical qubits (they differ for CircuitPermMPS)
+                qw = op.get("q", w)
+                val = complex(self.circ.local_expectation(G, qw[0] if op.get("as_int") else tuple(qw)))
                 self.mps = self.circ._psi
                 if small:
                     ref = dense_expec(psi0, dims, G, list(w))
-                    self.consumer("CircuitMPS:local_expectation", abs(val - ref) <= TOL_VAL * max(1, abs(ref)),
-                                  f"CircuitMPS.local_expectation {val} vs dense <psi|G|psi> = {ref}", {"where": w})
+                    self.consumer(type(self.circ).__name__ + ":local_expectation", abs(val - ref) <= TOL_VAL * max(1, abs(ref)),
+                                  f"{type(self.circ).__name__}.local_expectation {val} vs dense <psi|G|psi> = {ref}", {"where": w})
             elif api == "local_exp_canonical":
                 d = int(np.prod([dims[x] for x in w]))
                 G = rand_general(g, d, self.cplx)
@@ -878,7 +889,7 @@ class Driver:
             if op.get("circuit"):
                 self.circ.apply_gate("SWAP", op["i"], op["j"])
                 self.mps = self.circ._psi
-                exact = True
+                exact = not self.truncating
             else:
                 mps.swap_sites_with_compress_(op["i"], op["j"], info=info, **({} if op["absorb"] is None else {"absorb": op["absorb"]}), **opts)
             if small and exact:
@@ -893,9 +904,9 @@ class Driver:
             if op.get("circuit"):
                 lab, params = op["circuit"]
                 G = np.asarray(qtn.Gate(lab, tuple(params), (i, j)).array).reshape(4, 4)
-                self.circ.apply_gate(lab, *params, i, j)
+                self.circ.apply_gate(lab, *params, *op.get("q", (i, j)))
                 self.mps = self.circ._psi
-                exact = True
+                exact = not self.truncating
             else:
                 G = make_gate(op, dims[i] * dims[j], self.cplx)
             if op.get("circuit"):
@@ -929,12 +940,13 @@ class Driver:
             i = op["i"]
             if op.get("circuit"):
                 lab, params = op["circuit"]
+                qi = op.get("q", [i])[0]
                 if lab == "RAW":
                     G = make_gate(op, dims[i], True)
-                    self.circ.apply_gate_raw(G, [i])
+                    self.circ.apply_gate_raw(G, [qi])
                 else:
                     G = np.asarray(qtn.Gate(lab, tuple(params), (i,)).array)
-                    self.circ.apply_gate(lab, *params, i)
+                    self.circ.apply_gate(lab, *params, qi)
                 self.mps = self.circ._psi
             else:
                 G = make_gate(op, dims[i], self.cplx)
@@ -968,6 +980,18 @@ class Driver:
                 got = dense_of(new)
                 self.consumer("measure:post_state", close(got, post, scale=float(np.abs(post).max())),
                               "post-measurement state differs from the projected dense state", {"site": site, "remove": op["remove"], "renorm": op["renorm"]})
+        elif k == "circ_dropped":
+            # Circuit*.local_expectation(G, where, dtype=...): works on a converted COPY of the state and of the record
+            w = op["where"]
+            qw = op.get("q", w)
+            preserved = True
+            G = rand_general(g, int(np.prod([dims[x] for x in w])), True)
+            val = complex(self.circ.local_expectation(G, qw[0] if op.get("as_int") else tuple(qw), dtype="complex128"))
+            self.mps = self.circ._psi
+            if small:
+                ref = dense_expec(psi0, dims, G, list(w))
+                self.consumer(type(self.circ).__name__ + ":local_expectation(dtype)", abs(val - ref) <= TOL_VAL * max(1, abs(ref)),
+                              f"{type(self.circ).__name__}.local_expectation(dtype='complex128') {val} vs dense <psi|G|psi> = {ref}", {"where": w})
         elif k == "dropped":
             api = op["api"]
             preserved = True
@@ -1192,6 +1216,418 @@ def circuit_psi0_stream(ctx):
             PENDING.append((500000 + h, D.coq_case(), "circuit_psi0", D))
 
 
+# --------------------------------------------------------------------------- worlds of cooperating circuits
+
+WORLD_HEADER = HEADER + """From QV Require Import C08.World.
+(* observed world: per holder (canonical number of the record dict it threads - dicts numbered by first
+   occurrence over the holders in order -, its record, its observed tensors) *)
+Fixpoint wobs_ok (os : list obj) (w : world) (e : list (nat * rcd * list (flag * bool * bool))) : bool :=
+  match os, e with
+  | [], [] => true
+  | ob :: os', (c, r, o) :: e' =>
+      Nat.eqb (ocell ob) c && rcd_eqb (cell w (ocell ob)) r && obs_ok (osites ob) o && wobs_ok os' w e'
+  | _, _ => false
+  end.
+(* replay one world history: every operation lies in the theorem's domain (wgood_b), after every operation
+   every holder's dict identity, record and flags equal the observed ones, what the model guarantees was
+   measured, and the model world satisfies the (proved) invariant *)
+Fixpoint wcheck (w : world) (h : list (wop * option (list (nat * rcd * list (flag * bool * bool))))) : bool :=
+  match h with
+  | [] => true
+  | (x, e) :: r =>
+      wgood_b w x &&
+      match wstep x w, e with
+      | Some w', Some e' => wobs_ok (objs w') w' e' && winv_b w' && wcheck w' r
+      | None, None => true
+      | _, _ => false
+      end
+  end.
+Fixpoint wdiag (w : world) (h : list (wop * option (list (nat * rcd * list (flag * bool * bool))))) (n : nat) : nat :=
+  match h with
+  | [] => 0
+  | (x, e) :: r =>
+      if negb (wgood_b w x) then n else
+      match wstep x w, e with
+      | Some w', Some e' => if wobs_ok (objs w') w' e' && winv_b w' then wdiag w' r (S n) else n
+      | None, None => 0
+      | _, _ => n
+      end
+  end.
+Definition wstart (l : list (flag * bool * bool)) (r : rcd) : world := mkW [mkO (sites (start l r)) 0] [r].
+"""
+
+WORLD_CLASSES = ("CircuitMPS", "CircuitPermMPS")
+
+
+def logical_dense(circ):
+    """the holder's state as a vector over LOGICAL qubits, from its raw tensors and (CircuitPermMPS) its
+    own qubit bookkeeping"""
+    phys = dense_of(circ._psi)
+    qubits = getattr(circ, "qubits", None)
+    if qubits is None:
+        return phys
+    N = circ.N
+    return phys.reshape([2] * N).transpose([list(qubits).index(q) for q in range(N)]).reshape(-1)
+
+
+class Holder:
+    def __init__(self, D, ref, how, parent):
+        self.D, self.ref, self.how, self.parent = D, ref, how, parent
+
+    @property
+    def circ(self):
+        return self.D.circ
+
+
+class World:
+    """a family of circuits of one class related by .copy() / Circuit(psi0=other's state); operations are
+    applied to one holder at a time, and after EVERY operation EVERY holder is observed: which record dict
+    it threads, its record against its own tensors (the property), its flags, its state against an
+    independently evolved dense reference (test), fidelity_estimate against its dense norm (test)"""
+
+    def __init__(self, ctx, wspec, hid):
+        import quimb.tensor as qtn
+
+        self.ctx, self.wspec, self.hid = ctx, wspec, hid
+        self.cls = wspec["cls"]
+        self.ops_done = []
+        self.wsteps = []  # (coq wop, expectation or None)
+        self.stopped = False
+        self.alias_seen = False
+        D = Driver(ctx, wspec["spec"], hid)
+        self.root = D
+        self.holders = []
+        if not D.init_ok:
+            ctx.broken_obligation("harness:initial_state_claims", {"world": wspec})
+            self.stopped = True
+            return
+        kw = {"cutoff": 0.0}
+        if wspec.get("max_bond"):
+            kw["max_bond"] = int(wspec["max_bond"])
+        ref = dense_of(D.mps)
+        circ = getattr(qtn, self.cls)(psi0=D.mps, **kw)
+        self.adopt(D, circ)
+        self.holders.append(Holder(D, None if D.truncating else ref, "root", None))
+        self.init_rec = read_record(D.info)
+        if not self.observe_all("init", 0, "init"):
+            self.stopped = True
+
+    def adopt(self, D, circ):
+        D.circ, D.mps, D.info = circ, circ._psi, circ.gate_opts["info"]
+        D.cplx = True
+        D.world = self
+        D.truncating = bool(self.wspec.get("max_bond"))
+        D.keyprefix = f"circuit_world:{self.cls}:"
+
+    def payload(self, extra=None):
+        d = {"world": self.wspec, "ops": self.ops_done}
+        if extra:
+            d.update(extra)
+        return d
+
+    # -- observation of the whole family ---------------------------------------------
+    def observe_all(self, what, actor, relation, check_actor=True):
+        """returns False (after reporting) when some holder violates the property; the acting holder of a
+        library operation has already been checked by its own Driver (check_actor=False)"""
+        ctx = self.ctx
+        ids, exp = [], []
+        ok = True
+        for j, H in enumerate(self.holders):
+            H.D.info = H.circ.gate_opts["info"]
+            H.D.mps = H.circ._psi
+            ident = id(H.D.info)
+            if ident not in ids:
+                ids.append(ident)
+            cellno = ids.index(ident)
+            rec, obs = read_record(H.D.info), observe(H.circ._psi)
+            exp.append((cellno, rec, obs))
+            role = "actor" if j == actor else "bystander"
+            A = self.holders[actor]
+            rel = relation or (H.how if H.how != "root" else A.how if A.how != "root" else "copy")
+            if j != actor or check_actor:
+                bad = record_violations(rec, obs)
+                if bad:
+                    ok = False
+                    ctx.violation(f"circuit_world:{self.cls}:{rel}:{role}:stale_record",
+                                  f"{self.cls} family: after {what} on holder {actor}, holder {j}'s own record is {rec} but " + "; ".join(bad[:2]),
+                                  self.payload({"holder": j, "actor": actor}))
+                    continue
+                badf = flag_violations(obs)
+                if badf:
+                    ok = False
+                    ctx.violation(f"circuit_world:{self.cls}:{rel}:{role}:false_flag",
+                                  f"{self.cls} family: after {what} on holder {actor}, holder {j}: " + "; ".join(badf[:2]),
+                                  self.payload({"holder": j, "actor": actor}))
+                    continue
+                try:
+                    H.D.circuit_consumers(rec, role=f"{rel}:{role}:")
+                except Stop:
+                    ok = False
+                    continue
+            if H.ref is not None:
+                got = logical_dense(H.circ)
+                ctx.bump("world_state_vs_reference")
+                if not close(got, H.ref, scale=float(np.abs(H.ref).max())):
+                    ok = False
+                    ctx.violation(f"circuit_world:{self.cls}:{rel}:{role}:state",
+                                  f"{self.cls} family: after {what} on holder {actor}, the state of holder {j} differs from its own gate history "
+                                  f"applied to the dense state (max deviation {float(np.abs(got - H.ref).max()):.3g})",
+                                  self.payload({"holder": j, "actor": actor}))
+        self.last_exp = exp
+        if len(ids) != len(self.holders):
+            self.alias_seen = True
+            ctx.bump("world_shared_record_dict_observed")
+        return ok
+
+    # -- one world operation -------------------------------------------------------------
+    def apply(self, wop):
+        import quimb.tensor as qtn
+
+        ctx = self.ctx
+        self.ops_done.append(wop)
+        k = wop["k"]
+        H = self.holders[k]
+        kind = wop["w"]
+        N = H.circ.N
+        ctx.bump("world_op:" + kind)
+        if kind in ("copy", "psi0_fork"):
+            if kind == "copy":
+                circ = H.circ.copy()
+                ref = None if H.ref is None else H.ref.copy()
+                coq = f"WCopy {natlit(k)}"
+            else:
+                kw = {"cutoff": 0.0}
+                if self.wspec.get("max_bond"):
+                    kw["max_bond"] = int(self.wspec["max_bond"])
+                qubits = list(getattr(H.circ, "qubits", range(N)))
+                # the new circuit starts from the physical chain of the old one: logical qubit s of the new = physical site s of the old
+                ref = None if H.ref is None else H.ref.reshape([2] * N).transpose(qubits).reshape(-1)
+                circ = getattr(qtn, self.cls)(psi0=H.circ._psi, **kw)
+                coq = f"WNew {natlit(k)}"
+            D = Driver.__new__(Driver)
+            D.__dict__.update(H.D.__dict__)
+            D.steps, D.ops_done = [], []
+            self.adopt(D, circ)
+            self.holders.append(Holder(D, ref, kind, k))
+            ok = self.observe_all(kind, k, kind)
+            self.wsteps.append((coq, self.last_exp))
+            ctx.count(("world", self.cls, kind, len(self.holders)), True)
+            return ok
+        if kind == "noop":
+            api = wop["api"]
+            if api == "perm_swap":
+                q1, q2 = wop["q"]
+                H.circ.apply_gate("SWAP", q1, q2)
+                if H.ref is not None:
+                    H.ref, _ = dense_swap(H.ref, [2] * N, q1, q2)
+            elif api == "to_dense":
+                got = np.asarray(H.circ.to_dense()).reshape(-1)
+                if H.ref is not None and not close(got, H.ref, scale=float(np.abs(H.ref).max())):
+                    ctx.violation(f"circuit_world:{self.cls}:to_dense", f"{self.cls}.to_dense() of holder {k} differs from its gate history applied to the dense state",
+                                  self.payload({"holder": k}))
+                    return False
+            elif api == "get_psi":
+                H.circ.get_psi()
+            else:
+                raise ValueError(api)
+            ok = self.observe_all(api, k, None)
+            self.wsteps.append((f"WNoop {natlit(k)}", self.last_exp))
+            ctx.count(("world", self.cls, api), False)
+            return ok
+        # a library operation on holder k
+        op = wop["op"]
+        D = H.D
+        D.info, D.mps = H.circ.gate_opts["info"], H.circ._psi
+        qubits = list(getattr(H.circ, "qubits", range(N)))
+        if "q" in op:  # logical qubits -> the physical sites they sit on now (the library's own bookkeeping)
+            phys = [qubits.index(q) for q in op["q"]]
+            if op["kind"] in ("canon", "circ_dropped"):
+                op["where"] = phys
+            elif op["kind"] == "gate1":
+                op["i"] = phys[0]
+            else:
+                op["i"], op["j"] = phys
+        n0 = len(D.steps)
+        try:
+            D.apply(op)
+        except Stop:
+            if len(D.steps) > n0 and D.steps[-1][3] is None:
+                self.wsteps.append((f"WStep {natlit(k)} ({op_to_coq(op)}) ({natlit(D.steps[-1][1][0])}, {natlit(D.steps[-1][1][1])})", None))
+            return False
+        _, calc, _, _ = D.steps[-1]
+        # the dense reference of the acting holder: the gate on the LOGICAL qubits
+        if H.ref is not None and op["kind"] in ("gate1", "auto_swap", "swap"):
+            lab, params = op["circuit"]
+            qs = op.get("q") or ([op["i"]] if op["kind"] == "gate1" else [op["i"], op["j"]])
+            if lab == "RAW":
+                G = make_gate(op, 2, True)
+            else:
+                G = np.asarray(qtn.Gate(lab, tuple(params), tuple(qs)).array).reshape(2 ** len(qs), -1)
+            H.ref = dense_apply(H.ref, [2] * N, G, list(qs))
+        ok = self.observe_all(D.key_of(op), k, None, check_actor=False)
+        self.wsteps.append((f"WStep {natlit(k)} ({op_to_coq(op)}) ({natlit(calc[0])}, {natlit(calc[1])})", self.last_exp))
+        return ok
+
+    # -- model side ------------------------------------------------------------------------
+    def coq_terms(self):
+        D = self.root
+        init = "[" + "; ".join(f"({fc}, {blit(a)}, {blit(b)})" for fc, a, b in D.init_sites) + "]"
+        steps = []
+        for coq, exp in self.wsteps:
+            if exp is None:
+                e = "None"
+            else:
+                e = "(Some [" + "; ".join(f"({natlit(c)}, {rec_to_coq(r)}, {obs_to_coq(o)})" for c, r, o in exp) + "])"
+            steps.append(f"({coq}, {e})")
+        return f"(wstart {init} {rec_to_coq(self.init_rec)})", "[" + ";\n    ".join(steps) + "]"
+
+    def coq_case(self):
+        w, h = self.coq_terms()
+        return f"wcheck {w} {h}"
+
+
+def gen_world_circuit_op(rng, cls, N):
+    """an operation on one holder, in LOGICAL qubits (translated to physical sites when it is applied)"""
+    seed = rng.randrange(1 << 30)
+    perm = cls == "CircuitPermMPS"
+    r = rng.random()
+    if r < 0.08:
+        q = [rng.randrange(N)]
+        return {"kind": "gate1", "q": q, "i": q[0], "unitary": False, "contract": "auto-mps", "circuit": ["RAW", []], "seed": seed}
+    if r < 0.28:
+        lab = rng.choice(["H", "X", "T", "S", "RZ", "RX", "RY", "U3"])
+        params = [round(rng.uniform(-3, 3), 3) for _ in range({"RZ": 1, "RX": 1, "RY": 1, "U3": 3}.get(lab, 0))]
+        q = [rng.randrange(N)]
+        return {"kind": "gate1", "q": q, "i": q[0], "unitary": True, "contract": "auto-mps", "circuit": [lab, params], "seed": seed}
+    if r < 0.36 and not perm:
+        i, j = rng.sample(range(N), 2)
+        return {"kind": "swap", "i": i, "j": j, "absorb": None, "opts": {"cutoff": 0.0}, "circuit": ["SWAP", []], "seed": seed}
+    if r < 0.66:
+        lab = rng.choice(["CNOT", "CZ", "ISWAP", "RZZ", "FSIM", "CNOT"])
+        params = [round(rng.uniform(-3, 3), 3) for _ in range({"RZZ": 1, "FSIM": 2}.get(lab, 0))]
+        q = rng.sample(range(N), 2)
+        return {"kind": "auto_swap", "api": "circuit", "q": q, "i": q[0], "j": q[1], "swap_back": not perm, "unitary": True,
+                "opts": {"cutoff": 0.0}, "circuit": [lab, params], "seed": seed}
+    q = rng.sample(range(N), rng.choice([1, 1, 2]))
+    as_int = len(q) == 1 and rng.random() < 0.5
+    if r < 0.90:
+        return {"kind": "canon", "api": "circuit_local_expectation", "q": q, "where": list(q), "as_int": as_int,
+                "circuit": ["local_expectation", []], "seed": seed}
+    return {"kind": "circ_dropped", "q": q, "where": list(q), "as_int": as_int, "circuit": ["local_expectation(dtype)", []], "seed": seed}
+
+
+def gen_world_op(rng, W):
+    n = len(W.holders)
+    N = W.holders[0].circ.N
+    r = rng.random()
+    if n == 1 and len(W.ops_done) >= W.wspec.get("warmup", 0) or (n < 4 and r < 0.07):
+        return {"w": "copy" if rng.random() < 0.75 else "psi0_fork", "k": rng.randrange(n)}
+    k = rng.randrange(n)
+    if W.alias_seen and n >= 2 and rng.random() < 0.5:
+        # two holders were seen threading the same dict: look for the concrete failing input - move one
+        # holder's centre to an end of the chain, every other holder is then checked against its own tensors
+        q = [rng.choice([0, N - 1])]
+        return {"w": "step", "k": k, "op": {"kind": "canon", "api": "circuit_local_expectation", "q": q, "where": list(q), "as_int": True,
+                                             "circuit": ["local_expectation", []], "seed": rng.randrange(1 << 30)}}
+    if r < 0.16:
+        if W.cls == "CircuitPermMPS" and rng.random() < 0.6:
+            return {"w": "noop", "k": k, "api": "perm_swap", "q": rng.sample(range(N), 2)}
+        return {"w": "noop", "k": k, "api": rng.choice(["to_dense", "get_psi"])}
+    return {"w": "step", "k": k, "op": gen_world_circuit_op(rng, W.cls, N)}
+
+
+def run_world(ctx, wspec, ops=None, nops=14, hid=0):
+    W = World(ctx, wspec, hid)
+    if W.stopped:
+        return W
+    try:
+        if ops is not None:
+            for wop in ops:
+                if not W.apply(wop):
+                    break
+        else:
+            for _ in range(nops):
+                if not W.apply(gen_world_op(ctx.rng, W)):
+                    break
+    except Stop:
+        pass
+    return W
+
+
+def world_spec(rng, cls, L=None, entangled=False):
+    L = L or rng.randint(3, 6)
+    prep = rng.choice(["raw", "raw", "canon", "rand_state"]) if entangled else rng.choice(["raw", "raw", "canon", "rand_state", "product"])
+    spec = {"L": L, "bonds": [rng.randint(2 if entangled else 1, 4) for _ in range(L - 1)], "phys": [2] * L, "complex": rng.random() < 0.5,
+            "prep": prep, "seed": rng.randrange(1 << 30), "record": "unset"}
+    if prep == "canon":
+        c1 = rng.randrange(L)
+        spec["center"] = [c1, rng.randrange(c1, L)]
+    return {"cls": cls, "spec": spec, "max_bond": rng.choice([2, 3]) if rng.random() < 0.2 else None, "warmup": rng.randint(0, 6)}
+
+
+def directed_world_scripts(cls, N=5):
+    """the two-holder histories every ownership rule of copy() has to survive: entangle, leave the centre at one
+    end, copy (or fork from the state), move ONE holder's centre to the other end (gates / canonical queries /
+    a truncation-free SWAP), then query the OTHER; both orders of who moves and who is queried"""
+    perm = cls == "CircuitPermMPS"
+
+    def g2(lab, a, b, params=()):
+        return {"kind": "auto_swap", "api": "circuit", "q": [a, b], "i": a, "j": b, "swap_back": not perm, "unitary": True,
+                "opts": {"cutoff": 0.0}, "circuit": [lab, list(params)], "seed": 1}
+
+    def g1(lab, a, params=(), unitary=True):
+        return {"kind": "gate1", "q": [a], "i": a, "unitary": unitary, "contract": "auto-mps", "circuit": [lab, list(params)], "seed": 7}
+
+    def le(a, kind="canon"):
+        if kind == "canon":
+            return {"kind": "canon", "api": "circuit_local_expectation", "q": [a], "where": [a], "as_int": True, "circuit": ["local_expectation", []], "seed": 3}
+        return {"kind": "circ_dropped", "q": [a], "where": [a], "as_int": False, "circuit": ["local_expectation(dtype)", []], "seed": 3}
+
+    scripts = []
+    for how in ("copy", "psi0_fork"):
+        for mover, other in ((1, 0), (0, 1)):
+            for move in ("gates", "query", "raw"):
+                ops = [{"w": "step", "k": 0, "op": g2("CNOT", N - 2, N - 1)}, {"w": "step", "k": 0, "op": g1("RY", N - 1, [0.7])},
+                       {"w": how, "k": 0}]
+                if move == "gates":
+                    ops += [{"w": "step", "k": mover, "op": g2("CNOT", 0, 1)}, {"w": "step", "k": mover, "op": g1("RY", 0, [0.7])}]
+                elif move == "query":
+                    ops += [{"w": "step", "k": mover, "op": le(0)}]
+                else:
+                    ops += [{"w": "step", "k": mover, "op": g1("RAW", 0, unitary=False)}, {"w": "step", "k": mover, "op": le(1)}]
+                ops += [{"w": "noop", "k": other, "api": "to_dense"}, {"w": "step", "k": other, "op": le(2)},
+                        {"w": "step", "k": other, "op": le(N - 2, "dropped")}, {"w": "step", "k": mover, "op": le(1)},
+                        {"w": "copy", "k": other}, {"w": "step", "k": 2, "op": g2("CZ", 0, N - 1)}, {"w": "step", "k": other, "op": le(3)}]
+                scripts.append(ops)
+    return scripts
+
+
+def world_stream(ctx):
+    """families of CircuitMPS / CircuitPermMPS related by copy() and Circuit(psi0=other's state): exact
+    correspondence with the world model of coq/C08/World.v (which dict each holder threads, every holder's
+    record and flags after every operation on any holder) + the property on every holder (oracle) + every
+    holder's state against an independently evolved dense reference and fidelity_estimate (tests)"""
+    rng = ctx.rng
+    n = 0
+    for cls in WORLD_CLASSES:
+        for ops in directed_world_scripts(cls):
+            n += 1
+            spec = {"L": 5, "bonds": [2, 3, 3, 2], "phys": [2] * 5, "complex": True, "prep": "raw", "seed": 100 + n, "record": "unset"}
+            W = run_world(ctx, {"cls": cls, "spec": spec, "max_bond": None, "warmup": 0}, ops=[json.loads(json.dumps(o)) for o in ops], hid=7000 + n)
+            ctx.bump("world_directed:" + cls)
+            if W.wsteps:
+                PENDING.append((700000 + n, W.coq_case(), "world_directed", W))
+    for h in range(1, ctx.n(36, 300) + 1):
+        cls = WORLD_CLASSES[h % len(WORLD_CLASSES)]
+        wspec = world_spec(rng, cls, entangled=rng.random() < 0.7)
+        ctx.bump("world:" + cls + (":truncating" if wspec["max_bond"] else ""))
+        W = run_world(ctx, wspec, nops=rng.randint(6, 18), hid=8000 + h)
+        if h <= 1:
+            ctx.sample({"world": wspec, "ops": W.ops_done[:5]})
+        if W.wsteps:
+            PENDING.append((800000 + h, W.coq_case(), "world", W))
+
+
 def histories_stream(ctx):
     nh = ctx.n(150, 600)
     cases, drivers = [], {}
@@ -1232,6 +1668,26 @@ def first_divergence(ctx, D):
         info["impl_record_after"] = str(exp[0]) if exp else "raised"
         info["impl_flags_after"] = [o[2] for o in exp[1]] if exp else None
         info["impl_measured_LR_after"] = [(o[0] < TOL_ISO, o[1] < TOL_ISO) for o in exp[1]] if exp else None
+    return info
+
+
+def world_divergence(ctx, W):
+    """first world step at which model and implementation part (one evaluation inside Coq)"""
+    import re
+
+    w, h = W.coq_terms()
+    rc, out, err = ctx.coq_eval(f"wdiag{W.hid}", WORLD_HEADER + f"Eval vm_compute in (wdiag {w} {h} 1%nat).\n")
+    info = W.payload()
+    m = re.search(r"=\s*(\d+)\s*:\s*nat", out.replace("\n", " "))
+    if rc != 0 or not m:
+        info["diag_error"] = (out + err)[-600:]
+        return info
+    lo = int(m.group(1))
+    info["first_bad_step"] = lo
+    if lo:
+        coq, exp = W.wsteps[lo - 1]
+        info["world_op"] = coq
+        info["impl_after"] = None if exp is None else [{"record_dict": c, "record": str(r), "flags": [o[2] for o in obs]} for c, r, obs in exp]
     return info
 
 
@@ -1458,7 +1914,7 @@ def setup(ctx):
         "numerics (QR, SVD, contraction) enter only through the primitive effects listed in the trusted base",
         "cyclic MPS, bra= arguments and non-'direct' sub-MPO compression methods are not modelled (the latter are covered by the oracle stream)",
     ]
-    ctx.check_props(["Base/Sums.vo", "C08/Model.vo", "C08/Proofs.vo", "C08/Region.vo", "C08/Historic.vo", "C08/Props.v"])
+    ctx.check_props(["Base/Sums.vo", "C08/Model.vo", "C08/Proofs.vo", "C08/Region.vo", "C08/Historic.vo", "C08/World.vo", "C08/Props.v"])
 
 
 def run(ctx):
@@ -1467,7 +1923,8 @@ def run(ctx):
     t = time.time()
     setup(ctx)
     times = {"coq_props": round(time.time() - t, 1)}
-    for fn in (corpus_stream, findings_stream, rejected_stream, histories_stream, circuit_psi0_stream, flush, methods_stream, circuit_stream):
+    for fn in (corpus_stream, findings_stream, rejected_stream, histories_stream, circuit_psi0_stream, world_stream, flush, methods_stream,
+               circuit_stream):
         t = time.time()
         ctx.stage(fn)
         times[fn.__name__] = round(time.time() - t, 1)
@@ -1485,6 +1942,12 @@ def corpus_stream(ctx):
         with open(path) as f:
             d = json.load(f)
         d = d.get("replay", d)
+        if "world" in d and "ops" in d:
+            W = run_world(ctx, d["world"], ops=d["ops"], hid=2000 + n)
+            ctx.bump("corpus")
+            if W.wsteps:
+                PENDING.append((300000 + n, W.coq_case(), "corpus_world", W))
+            continue
         if "spec" not in d or "ops" not in d:
             continue
         D = (run_circuit_history if d.get("circuit") else run_history)(ctx, d["spec"], ops=d["ops"], hid=2000 + n)
@@ -1502,7 +1965,15 @@ def replay(ctx, path):
     with open(path) as f:
         d = json.load(f)
     d = d.get("replay", d)
-    if isinstance(d, dict) and "spec" in d and "ops" in d:
+    if isinstance(d, dict) and "world" in d and "ops" in d:
+        W = run_world(ctx, d["world"], ops=d["ops"], hid=1)
+        if W.wsteps:
+            failed, errors = ctx.coq_cases("replay", WORLD_HEADER, [(1, W.coq_case())], shard=5)
+            for p, err in errors:
+                ctx.broken_obligation("correspondence:replay", err)
+            if failed:
+                ctx.broken_obligation("correspondence:model_vs_implementation(replay)", world_divergence(ctx, W))
+    elif isinstance(d, dict) and "spec" in d and "ops" in d:
         D = (run_circuit_history if d.get("circuit") else run_history)(ctx, d["spec"], ops=d["ops"], hid=1)
         if D.steps:
             failed, errors = ctx.coq_cases("replay", HEADER, [(1, D.coq_case())], shard=5)
